@@ -311,6 +311,49 @@ func (c *crafter) build() {
 		s := hotstuff.NewSyncInfoWith(tc)
 		c.send(all, hotstuff.NewViewMsg{ID: c.id, SyncInfo: s, FromNetwork: true}, mv)
 	})
+	// a real timeout certificate seen on the wire, combined with a forged QC that is labelled
+	// with a view below the TC's (a receiver that skips QC verification in that case adopts it)
+	var realTC *hotstuff.TimeoutCert
+	for i := range w.Sent {
+		var si hotstuff.SyncInfo
+		switch m := w.Sent[i].Payload.(type) {
+		case hotstuff.NewViewMsg:
+			si = m.SyncInfo
+		case hotstuff.TimeoutMsg:
+			si = m.SyncInfo
+		default:
+			continue
+		}
+		if tc, ok := si.TC(); ok && tc.Signature() != nil && (realTC == nil || tc.View() > realTC.View()) {
+			t := tc
+			realTC = &t
+		}
+	}
+	if realTC != nil && len(newest) > 0 {
+		tc := *realTC
+		for _, nb := range newest[:min(2, len(newest))] {
+			nb := nb
+			for _, label := range []hotstuff.View{0, nb.View()} {
+				label := label
+				if label >= tc.View() {
+					continue
+				}
+				add(fmt.Sprintf("newview tc=seen(v%d) qc=own-signature-repeated(%s) labelled v%d", tc.View(), short(nb.Hash()), label), func() {
+					s := hotstuff.NewSyncInfoWith(tc)
+					s.SetQC(hotstuff.NewQuorumCert(repeatSig(c.sign(nb.ToBytes()), c.id, c.q()), label, nb.Hash()))
+					c.send(all, hotstuff.NewViewMsg{ID: c.id, SyncInfo: s, FromNetwork: true}, min(mv, w.Cfg.Horizon))
+				})
+			}
+		}
+		add(fmt.Sprintf("timeout v%d tc=seen(v%d) qc=own-signature-repeated", mv, tc.View()), func() {
+			nb := newest[0]
+			s := hotstuff.NewSyncInfoWith(tc)
+			s.SetQC(hotstuff.NewQuorumCert(repeatSig(c.sign(nb.ToBytes()), c.id, c.q()), 0, nb.Hash()))
+			m := hotstuff.TimeoutMsg{ID: c.id, View: mv, SyncInfo: s, ViewSignature: c.sign(mv.ToBytes())}
+			m.MsgSignature = c.sign(m.ToBytes())
+			c.send(all, m, min(mv, w.Cfg.Horizon))
+		})
+	}
 	add(fmt.Sprintf("newview qc=%s", cands[0].name), func() {
 		c.send(all, hotstuff.NewViewMsg{ID: c.id, SyncInfo: si(), FromNetwork: true}, mv)
 	})
